@@ -1,7 +1,8 @@
 #!/usr/bin/env python3
 """Every claimed property's rules against every seeded change / mutant, one extraction and one process per patch
 (each rule function runs once per patch and is shared by the properties that use it).
-usage: tools/fast_matrix.py [seeded|mutants] [pattern]     -> /verif/<which>/MATRIX.json
+usage: tools/fast_matrix.py [seeded|mutants|refactorings] [pattern]     -> /verif/<which>/MATRIX.json
+       (refactorings = behaviour-preserving edits: every check must stay SILENT on them)
        tools/fast_matrix.py --one <patch>                  (worker: prints one JSON line)
 Never touches /repo or /verif/evidence: works on scratch copies under $TMPDIR."""
 import concurrent.futures as cf, glob, json, os, shutil, subprocess, sys, tempfile
@@ -55,9 +56,10 @@ def main():
         return
     which = sys.argv[1] if len(sys.argv) > 1 else "seeded"
     pat = sys.argv[2] if len(sys.argv) > 2 else ""
-    patches = sorted(glob.glob(V + "/seeded/*/patch.diff")) if which == "seeded" else sorted(glob.glob(V + "/mutants/*/*.patch"))
+    patches = {"seeded": sorted(glob.glob(V + "/seeded/*/patch.diff")), "mutants": sorted(glob.glob(V + "/mutants/*/*.patch")),
+               "refactorings": sorted(glob.glob(V + "/refactorings/*.diff"))}[which]
     patches = [p for p in patches if pat in p]
-    dst = V + ("/seeded/MATRIX.json" if which == "seeded" else "/mutants/MATRIX.json")
+    dst = V + "/%s/MATRIX.json" % which
     out = json.load(open(dst)) if (pat and os.path.exists(dst)) else {}
 
     def one(p):
@@ -71,7 +73,13 @@ def main():
             name = os.path.relpath(p, V)
             out[name] = {k: [{kk: vv for kk, vv in x.items() if kk != "key"} for x in v] if isinstance(v, list) else v for k, v in res.items()}
             hit = sorted(k for k in res if k != "error")
-            print("%-46s %s" % (name, ("caught by " + ", ".join("%s[%s]" % (k, "/".join(sorted({x['rule'] or '?' for x in res[k]}))) for k in hit)) if hit else ("ERROR " + res["error"] if "error" in res else "not caught")), flush=True)
+            if hit:
+                verdict = ("ALARM " if which == "refactorings" else "caught by ") + ", ".join("%s[%s]" % (k, "/".join(sorted({x['rule'] or '?' for x in res[k]}))) for k in hit)
+            elif "error" in res:
+                verdict = "ERROR " + res["error"]
+            else:
+                verdict = "silent" if which == "refactorings" else "not caught"
+            print("%-46s %s" % (name, verdict), flush=True)
     json.dump(out, open(dst, "w"), indent=1, ensure_ascii=False)
 
 
